@@ -19,6 +19,17 @@ CONFIGS = {
     "family": ([], "", os.path.join(VERIF, "derive_family"), ["derive_family"]),
 }
 FAMILY_DIR = os.path.join(VERIF, "derive_family")
+if REPO != "/repo":
+    # development only: the harness crate path-depends on /repo; analyse a copy that points at the scratch tree instead
+    _fam = os.path.join(WORK, "derive_family")
+    os.makedirs(os.path.join(_fam, "src"), exist_ok=True)
+    shutil.copyfile(os.path.join(FAMILY_DIR, "src", "lib.rs"), os.path.join(_fam, "src", "lib.rs"))
+    with open(os.path.join(FAMILY_DIR, "Cargo.toml")) as _fh:
+        _toml = _fh.read().replace('"/repo/', '"%s/' % REPO)
+    with open(os.path.join(_fam, "Cargo.toml"), "w") as _fh:
+        _fh.write(_toml)
+    FAMILY_DIR = _fam
+    CONFIGS["family"] = ([], "", FAMILY_DIR, ["derive_family"])
 FIXTURES_DIR = os.path.join(VERIF, "fixtures")
 CONFIGS["fixtures"] = ([], "", FIXTURES_DIR, ["fixtures"])
 
